@@ -58,7 +58,7 @@ Definition scP (s : st) (g : ghost) (e : ev) : Prop :=
   | _ => True
   end.
 
-Ltac sproj := cbn [vol dur files dfiles closed_fl closed_du cur_fl cur_du buf dirty ever_dirty in_txn seq tabs cat_v cat_d
+Ltac sproj := cbn [vol dur files dfiles closed_fl closed_du cur_fl cur_du buf dirty ever_dirty in_txn seq tabs cat_v cat_d cat_t cat_td
                     set_vol set_files set_dur set_wal set_dirty set_txn set_cat g_view g_unl] in *.
 
 (* ------------------------------------------------------------------ small facts *)
